@@ -247,6 +247,20 @@ static std::string run_pf(Local& L, I start, I end, int64_t N, uint32_t maxThrea
   i128 K = std::min<i128>(mt, par);
   if (G > 1 && par / G < K) K = std::max<i128>(1, par / G);
   size_t npar = n;
+  if (tail > 0 && !wait) {
+    // wait=false: nobody may run the tail beside the asynchronous chunks, so the chunk that ends at the trimmed end
+    // absorbs it (the one invocation whose size is not a multiple of the granularity, and it ends at the range end).
+    // Cut the tail off that call again and check the rest as the static partition of the trimmed range.
+    bool found = false;
+    for (size_t q = 0; q < n; q++)
+      if (L.calls[q].e == e0 && L.calls[q].s < s0 + par) {
+        L.calls[q].e = s0 + par;
+        found = true;
+        break;
+      }
+    if (!found) return "wait=false with a granularity tail: no call ends at the range end after covering part of the trimmed range";
+    return check_partition(L, n, s0, s0 + par, G, K);
+  }
   if (tail > 0) {
     const Call& t = L.calls[n - 1];
     if (t.s != s0 + par || t.e != e0 || t.state != 0)
